@@ -298,6 +298,15 @@ package formula
 //@           invariant[C14] old(s.pos) < s.end && old(cur(s)) == 92 ==> s.pos == old(s.pos)
 //@           decreases s.end - s.pos
 
+// Trivia (C14): between two tokens lie only ES white space and line breaks. isWS is the ES
+// white-space set (TAB VT FF SP NBSP, the space separators U+1680 U+2000..U+200B U+202F U+205F
+// U+3000, and the byte-order mark); isLB the line-break set. triv(t, p): the position after the
+// run of such characters that starts at p. No identifier-start character is white space (the
+// ES5 table facts below are ground-evaluated on the table).
+//@ spec isWS(c int) bool := c == 32 || c == 9 || c == 11 || c == 12 || c == 160 || c == 5760 || (c >= 8192 && c <= 8203) || c == 8239 || c == 8287 || c == 12288 || c == 65279
+//@ spec rec triv(t string, p int) int := (p >= 0 && p < len(t) && (isWS(urune(t[p:])) || isLB(urune(t[p:])))) ? triv(t, p + usize(t[p:])) : p
+//@ globalfact !inTable(160, unicodeES5IdentifierStart) && !inTable(5760, unicodeES5IdentifierStart) && !inTable(8192, unicodeES5IdentifierStart) && !inTable(8193, unicodeES5IdentifierStart) && !inTable(8194, unicodeES5IdentifierStart) && !inTable(8195, unicodeES5IdentifierStart) && !inTable(8196, unicodeES5IdentifierStart) && !inTable(8197, unicodeES5IdentifierStart) && !inTable(8198, unicodeES5IdentifierStart) && !inTable(8199, unicodeES5IdentifierStart) && !inTable(8200, unicodeES5IdentifierStart) && !inTable(8201, unicodeES5IdentifierStart) && !inTable(8202, unicodeES5IdentifierStart) && !inTable(8203, unicodeES5IdentifierStart) && !inTable(8239, unicodeES5IdentifierStart) && !inTable(8287, unicodeES5IdentifierStart) && !inTable(12288, unicodeES5IdentifierStart) && !inTable(65279, unicodeES5IdentifierStart) && !inTable(8232, unicodeES5IdentifierStart) && !inTable(8233, unicodeES5IdentifierStart) && !inTable(133, unicodeES5IdentifierStart)
+
 // Operators and punctuation (C14), written from the statement: matched longest first.
 //@ spec at(t string, p int, k int, c int) bool := p + k < len(t) && t[p+k] == c
 //@ spec opTok(t string, p int) int := t[p] == '!' ? (at(t, p, 1, '=') ? (at(t, p, 2, '=') ? SK_ExclamationEqualsEquals : SK_ExclamationEquals) : (at(t, p, 1, '!') ? SK_ExclamationExclamation : (at(t, p, 1, '.') ? SK_ExclamationDot : SK_Exclamation))) : (t[p] == '=' ? (at(t, p, 1, '=') ? (at(t, p, 2, '=') ? SK_EqualsEqualsEquals : SK_EqualsEquals) : SK_Equals) : (t[p] == '&' ? (at(t, p, 1, '&') ? SK_AmpersandAmpersand : SK_Ampersand) : (t[p] == '|' ? (at(t, p, 1, '|') ? SK_BarBar : SK_Bar) : (t[p] == '?' ? (at(t, p, 1, '?') ? SK_QuestionQuestion : SK_Question) : (t[p] == '<' ? (at(t, p, 1, '=') ? SK_LessThanEquals : SK_LessThan) : (t[p] == '>' ? (at(t, p, 1, '=') ? SK_GreaterThanEquals : SK_GreaterThan) : (t[p] == '.' ? ((at(t, p, 1, '.') && at(t, p, 2, '.')) ? SK_DotDotDot : SK_Dot) : opTok1(t[p]))))))))
@@ -317,6 +326,7 @@ package formula
 //@   ensures s.token != SK_EndOfFile ==> s.pos > s.tokenPos
 //@   ensures s.token == SK_EndOfFile ==> s.pos == s.end
 //@   ensures[C01,C14] isIdTok(s.token) ==> len(s.tokenValue) > 0
+//@   ensures[C14] s.tokenPos == triv(s.text, old(s.pos))
 //@   ensures[C14] isIdTok(s.token) ==> s.tokenValue == s.text[s.tokenPos:s.pos]
 //@   ensures[C14] isIdTok(s.token) ==> !(s.pos < s.end && idPartU(runeAt(s.text, s.pos)))
 //@   ensures[C14] isIdTok(s.token) ==> idStartU(runeAt(s.text, s.tokenPos))
@@ -328,10 +338,11 @@ package formula
 //@   ensures[C12] s.tokenPos < s.end && numStart(s.text, s.tokenPos) ==> (sepFlag(s) ? s.tokenValue == litValue(s.text, s.tokenPos) : s.tokenValue == s.text[s.tokenPos:litTextEnd(s.text, s.tokenPos)])
 //@   ensures[C12] s.tokenPos < s.end && numStart(s.text, s.tokenPos) && (litBad(s.text, s.tokenPos) || (s.pos < s.end && idStartU(cur(s)))) ==> errd(s)
 //@   loop 1: invariant sbase(s) && cbok(s) && s.startPos == old(s.pos) && s.startPos <= s.pos && nd(s) >= old(nd(s)) && !sepFlag(s)
+//@           invariant[C14] triv(s.text, s.pos) == triv(s.text, old(s.pos))
 //@           decreases s.end - s.pos
 //@   loop 2: invariant scanFrame(s) && s.startPos == old(s.pos) && nd(s) >= old(nd(s)) && s.tokenPos < s.pos
 //@           invariant tar@L2 == -1 || (s.pos <= tar@L2 && tar@L2 <= s.end)
-//@           invariant[C14] idStartU(runeAt(s.text, s.tokenPos))
+//@           invariant[C14] idStartU(runeAt(s.text, s.tokenPos)) && s.tokenPos == triv(s.text, old(s.pos))
 //@           invariant[C14] tar@L2 < 0 ==> !(s.pos < s.end && idPartU(runeAt(s.text, s.pos)))
 //@           invariant[C12,C13,C14] s.tokenPos < s.end && s.text[s.tokenPos] != 34 && s.text[s.tokenPos] != 39 && !numStart(s.text, s.tokenPos) && !isOpCh(s.text[s.tokenPos])
 //@           decreases tar@L2 >= 0 ? s.end - tar@L2 + 1 : 0
@@ -763,7 +774,7 @@ package formula
 //@           decreases rem(p)
 
 //@ func (*Parser).parseMemberExpressionRest
-//@   tags [C01,C02,C15]
+//@   tags [C01,C02,C15,C16]
 //@   requires pinv(p) && okx(expr) && xend(expr) == spos(p) && xpos(expr) <= xend(expr) && cls(expr) >= 13
 //@   assigns parserState(p)
 //@   panics never
@@ -774,6 +785,7 @@ package formula
 //@   ensures[C15] is(result, *SelectorExpression) && result != expr ==> xpos(as(result, *SelectorExpression).Expression) == xpos(result) && xend(as(result, *SelectorExpression).Expression) <= as(result, *SelectorExpression).Name.pos && as(result, *SelectorExpression).Name.end <= xend(result)
 //@   ensures result != expr ==> is(result, *SelectorExpression)
 //@   at call (*Parser).gotToken: assert[C02,C14] !lbk(p)
+//@   at call (*Parser).parseRightSideOfDot: assert[C16,C02] (exclamationDot != nil) == (dotToken == nil)
 //@   loop 1: invariant pinv(p) && rem(p) <= old(rem(p)) && ndp(p) >= old(ndp(p)) && okx(expr) && xend(expr) == spos(p) && xpos(expr) == old(xpos(expr)) && xpos(expr) <= xend(expr) && cls(expr) >= 13
 //@           invariant expr != old(expr) ==> is(expr, *SelectorExpression)
 //@           invariant[C01] (is(expr, *SelectorExpression) && expr != old(expr) ==> okx(as(expr, *SelectorExpression).Expression) && as(expr, *SelectorExpression).Name != nil)
@@ -872,7 +884,7 @@ package formula
 //@ spec starts(r []int, n int) bool := len(r) >= 1 && r[0] == 0 && ascending(r) && (forall i int :: 0 <= i && i < len(r) ==> r[i] <= n)
 
 //@ func BinarySearch
-//@   tags [C15]
+//@   tags [C15,C01]
 //@   requires ascending(array)
 //@   panics never
 //@   noalloc
@@ -1194,6 +1206,8 @@ package formula
 //@   defines world == step(old(world), v) && res == valOf(old(world), v) && err == errOf(old(world), v)
 //@   ensures[C03] err != nil ==> res == nil
 //@   ensures wfv(res) && rpost(r)
+//@   ensures[C12,C04] is(v, *LiteralExpression) && as(v, *LiteralExpression).Token == SK_NumberLiteral && dvStrOK(as(v, *LiteralExpression).Value) ==> err == nil && num(res) && nval(res) == dvStr(as(v, *LiteralExpression).Value)
+//@   ensures[C13] is(v, *LiteralExpression) && as(v, *LiteralExpression).Token == SK_StringLiteral ==> err == nil && res == mkstr(as(v, *LiteralExpression).Value)
 
 // Normalisation of Go values (C16, C04): int kinds exactly, floats through their shortest
 // decimal spelling, everything else unchanged.
@@ -1202,11 +1216,11 @@ package formula
 //@   requires wfv(v)
 //@   panics never
 //@   ensures result1 == nil && wfv(result0)
-//@   ensures[C04,C16] is(v, int) ==> num(result0) && fresh(nref(result0)) && nref(result0).prec == 34 && nval(result0) == dvInt(as(v, int))
-//@   ensures[C04,C16] is(v, int32) ==> num(result0) && fresh(nref(result0)) && nref(result0).prec == 34 && nval(result0) == dvInt(as(v, int32))
-//@   ensures[C04,C16] is(v, int64) ==> num(result0) && fresh(nref(result0)) && nref(result0).prec == 34 && nval(result0) == dvInt(as(v, int64))
-//@   ensures[C04,C16] is(v, float64) ==> num(result0) && fresh(nref(result0)) && nref(result0).prec == 34 && nval(result0) == dvStr(fmtFloat(as(v, float64)))
-//@   ensures[C16] !is(v, int) && !is(v, int32) && !is(v, int64) && !is(v, float32) && !is(v, float64) ==> result0 == v
+//@   ensures[C04,C16,C11] is(v, int) ==> num(result0) && fresh(nref(result0)) && nref(result0).prec == 34 && nval(result0) == dvInt(as(v, int))
+//@   ensures[C04,C16,C11] is(v, int32) ==> num(result0) && fresh(nref(result0)) && nref(result0).prec == 34 && nval(result0) == dvInt(as(v, int32))
+//@   ensures[C04,C16,C11] is(v, int64) ==> num(result0) && fresh(nref(result0)) && nref(result0).prec == 34 && nval(result0) == dvInt(as(v, int64))
+//@   ensures[C04,C16,C11] is(v, float64) ==> num(result0) && fresh(nref(result0)) && nref(result0).prec == 34 && nval(result0) == dvStr(fmtFloat(as(v, float64)))
+//@   ensures[C16,C12,C13] !is(v, int) && !is(v, int32) && !is(v, int64) && !is(v, float32) && !is(v, float64) ==> result0 == v
 
 //@ func try2Float64
 //@   tags [C04,C03]
